@@ -712,6 +712,27 @@ var tableRowIndexFuncs = map[string]string{
 	"internal/codegen.handleIMUL":             "operand position from the matched table row, upper bound tested; Atoi of `#k` text is never negative for table rows",
 }
 
+// tableRowReason: f is one of the listed emitters, or a helper every call of which is made by
+// one of them (the code was moved, the argument stays the same).
+func tableRowReason(c *Ctx, f *ssa.Function) (string, bool) {
+	if r, ok := tableRowIndexFuncs[shortName(f)]; ok {
+		return r, true
+	}
+	idx := c.callIndex()
+	if idx.taken[f] || len(idx.sites[f]) == 0 || f.Parent() != nil {
+		return "", false
+	}
+	reason := ""
+	for _, ci := range idx.sites[f] {
+		r, ok := tableRowIndexFuncs[shortName(ci.Parent())]
+		if !ok {
+			return "", false
+		}
+		reason = r + " (moved into " + f.Name() + ", called only from " + ci.Parent().Name() + ")"
+	}
+	return reason, true
+}
+
 var confirmedPanicFree = map[string]string{
 	"L13|(*internal/filefmt.CoffFormat).Write|finalBytes[0:coffHeaderSize]":                                    "the buffer starts with a placeholder of coffHeaderSize + 3×coffSectionHeaderSize bytes written before any data (rule P4 checks that order)",
 	"L13|(*internal/filefmt.CoffFormat).Write|finalBytes[currentOffset:currentOffset + coffSectionHeaderSize]": "as above; currentOffset runs over the three section-header slots of that placeholder",
@@ -782,7 +803,7 @@ func ruleV13(c *Ctx) {
 				}
 				// operand positions read from the matched row of the instruction table, in the emitters
 				// where that was confirmed by reading — whatever the locals are called today
-				if reason, ok := tableRowIndexFuncs[shortName(f)]; ok && isStringSliceType(x.Type()) && fromTableRow(idx, map[ssa.Value]bool{}, 0) {
+				if reason, ok := tableRowReason(c, f); ok && isStringSliceType(x.Type()) && fromTableRow(idx, map[ssa.Value]bool{}, 0) {
 					c.ok("V13", key, c.L.Pos(instrPos(in)), "confirmed by reading: "+reason)
 					continue
 				}
